@@ -92,6 +92,48 @@ def run(rep: Report, tier: str, seed: int) -> None:
 
     run_packed([(hs, Opts()), (hs, Opts(convert=True))], build_h, on_h, stats)
     rep.extra["hierarchies"] = len(hs)
+
+    # ---- names that are SUFFIXES of each other: what is re-exported is decided on whole names, not on string suffixes
+    suffix_inputs = {
+        "module-name-suffix": ({"sx1/__init__.py": "from ._impl import Helper\n", "sx1/_impl.py": "class Helper:\n    def a(self) -> int:\n        return 1\n",
+                                "sx1/_x_impl.py": "class Helper:\n    def secretx1(self) -> int:\n        return 1\n", "sx1/pub.py": "def p() -> int:\n    return 1\n"},
+                               ["secretx1"], ["vpkg/sx1/_x_impl/Helper"]),
+        "class-name-suffix": ({"sx2/__init__.py": "from ._m import Bar\n", "sx2/_m.py": "class Bar:\n    def b(self) -> int:\n        return 1\n\n\nclass FooBar:\n    def secretx2(self) -> int:\n        return 1\n",
+                               "sx2/pub.py": "def p() -> int:\n    return 1\n"},
+                              ["secretx2", "FooBar"], ["vpkg/sx2/_m/FooBar"]),
+        "function-name-suffix": ({"sx3/__init__.py": "from ._m import run\n", "sx3/_m.py": "def run() -> int:\n    return 1\n\n\ndef dry_run() -> int:\n    return 1\n\n\ndef rerun() -> int:\n    return 1\n",
+                                  "sx3/pub.py": "def p() -> int:\n    return 1\n"},
+                                 ["dry_run", "rerun"], ["vpkg/sx3/_m/dry_run", "vpkg/sx3/_m/rerun"]),
+    }
+
+    def build_s(us):
+        files = {f"{PKG}/__init__.py": ""}
+        for name in us:
+            files.update({f"{PKG}/{k}": v for k, v in suffix_inputs[name][0].items()})
+        return files, PKG
+
+    def on_s(us, opts, obs, files) -> None:
+        if obs.outcome != "completed":
+            rep.violation("run-completes", f"run:{obs.outcome}:{obs.crash_sig()}|suffix-names", {"exc": obs.exc_type + ": " + obs.exc_msg}, files=files, src_rel=PKG, opts=opts, obs=obs)
+            return
+        idx = index_stubs(obs)
+        api = obs.api() or {}
+        publicity = {e["id"]: e.get("is_public") for lst in ("classes", "functions") for e in api.get(lst, [])}
+        for name in us:
+            _, absent, private_ids = suffix_inputs[name]
+            rep.case(f"suffix:{name}", True)
+            leaked = [(n, path) for n in absent for path, m in idx.modules.items() for _, d in m.walk() if d.py_name == n]
+            if leaked:
+                rep.violation("leak", f"leak:suffix:{name}", {"leaked": leaked[:4]}, files=build_s([name])[0], src_rel=PKG, opts=opts)
+            else:
+                rep.ok("leak")
+            wrong = [i for i in private_ids if publicity.get(i) is not False]
+            if wrong:
+                rep.violation("api-is_public", f"api-is_public:suffix:{name}", {"expected_private": wrong, "api": {i: publicity.get(i) for i in wrong}}, files=build_s([name])[0], src_rel=PKG, opts=opts)
+            else:
+                rep.ok("api-is_public")
+
+    run_packed([(list(suffix_inputs), Opts())], build_s, on_s, stats)
     rep.extra["trees"] = len(specs)
     rep.extra["private_decls_judged"] = sum(1 for s in specs for g in s.decls if not g.public)
     rep.assumptions = [
